@@ -558,6 +558,13 @@ def gen_case(seed, i, tier="quick"):
         params["ph_iters"] = int(rng.choice((0.2, 0.3, 0.4, 0.6)) * t_work / 45)
     if tier != "quick" and rng.random() < 0.02 and ka != "phase_change":
         t_work = rng.randrange(1_000_000, 2_000_000)
+    long_stall = False
+    if ka == "loop_slow" or (ka not in ("regex", "phase_change", "eval_chain_busy", "kept_method") and rng.random() < 0.04):
+        # a limit much longer than the overrun allowance, cut short by time in which the process does
+        # not run (host calls that wait, the process descheduled): an engine that only counted its own
+        # running time would come back a whole T of work late
+        t_work = rng.choice((600_000, 1_000_000))
+        long_stall = True
     prelude = rng.choice(PRELUDES) if rng.random() < 0.5 else "none"
     params["prelude_n"] = rng.randrange(0, 400)
     T = t_work * tick
@@ -565,7 +572,9 @@ def gen_case(seed, i, tier="quick"):
     params["slow"] = round(T * rng.choice((0.001, 0.01, 0.2)), 9)
     control = rng.random() < 0.15
     faults = []
-    if not control:
+    if long_stall and not control and ka != "loop_slow":
+        faults.append({"kind": "mono_jump", "at_work": rng.randrange(1, 100_000), "delta": round(T * rng.choice((0.9, 1.0, 3.0)), 9)})
+    elif not control:
         r = rng.random()
         if r < 0.15:
             faults.append({"kind": "mono_jump", "at_work": rng.randrange(1, max(2, t_work)),
